@@ -57,7 +57,7 @@ TakeCert == /\ up /\ pcert # -1
 \* own messages of the running instance (requested by the participant, signed, logged, stored for rebroadcast)
 OwnMsgs == {m \in [inst : {rs.cur}, round : {0, 1}, phase : {1, 2}, sender : Senders] : m \notin wal}
 Broadcast(r) == \/ wal' = wal /\ rs' = r
-                \/ /\ Cardinality(wal) < MaxWal
+                \/ /\ r.inInst /\ Cardinality(wal) < MaxWal
                    /\ \E m \in OwnMsgs : wal' = wal \cup {m} /\ rs' = OnBroadcast(r, m)
 Decide(r) == /\ r.inInst /\ r.cur <= MaxInst
              /\ IF Has(store, r.cur)
@@ -93,13 +93,16 @@ TakeMsg == /\ up /\ pmsg > 0 /\ pmsg' = 0
 Next == Start \/ Crash \/ EnvPut \/ Tick \/ EnvMsg \/ TakeCert \/ TakeAlarm \/ TakeMsg
 Spec == Init /\ [][Next]_vars
 
+MFa == [period |-> 2, mult2 |-> 2, lookback |-> 0, table2 |-> <<1, 2>>, align |-> 0, init |-> 0]
+MFb == [period |-> 2, mult2 |-> 3, lookback |-> 1, table2 |-> <<2>>, align |-> 3, init |-> 1]
+
 \* ---------------------------------------------------------------- invariants
 TypeOK == GapFree(store) /\ (up => rs.cur <= NextInst(store, MF))
 \* the instance never decreases - within a process lifetime and across restarts
 InstanceMonotone == up => rs.cur = hi
 NeverBehindFinality == up => FollowsFinality(rs, MF)
 ProposalFollowsFinality == prop.inst # -1 => (prop.inst >= prop.fin + 1 /\ prop.inst >= MF.init)
-ScheduledAfterBase == up => SchedOK(rs, MF)
+ScheduledAfterBase == up => SchedOK(rs)
 ReplayThatInstanceInOrder == up => (ReplayOK(rs) /\ \A k \in DOMAIN rs.replay : rs.replay[k] \in wal)
 ReplayComplete == (up /\ last.kind = "start") => {rs.replay[k] : k \in DOMAIN rs.replay} = {m \in Trimmed(wal) : m.inst = rs.cur}
 DuplicateDoesNotDisturb == (last.kind = "cert" /\ last.dup /\ last.wasIn) => last.isIn
